@@ -30,7 +30,7 @@ PROPS["C01"] = {
             "UPDATE / DELETE statements over 1-12 tables, executed as SQL text through Session.ExecQuery (direct statement values through engine.Evaluate*), "
             "with generated flushes; after every k-th statement and at the end SELECT * of each table is compared as a sequence with the reference model, "
             "row ids must be stable, strictly increasing and never reused, and sys_schema / sys_pages must equal the declared schemas; the end state is compared again after a flush + reload and after USE of another database and back (close and reopen without log replay). "
-            "One CREATE TABLE in eight uses a name differing from an existing table's only in letter case; the end state is compared once more after a clean shutdown and restart. An idle database exists on either side of the one under test (also in C02-C04, C07, C08, C14, C16). Non-trivial: an UPDATE/DELETE on a table that later goes through >=1 more leaf split, or >=2 switches between tables among the inserts, or >=7 tables (sys_pages split); distinct by case JSON.",
+            "One CREATE TABLE in eight uses a name differing from an existing table's only in letter case; the end state is compared once more after a clean shutdown and restart. An idle database exists on either side of the one under test (also in C02-C04, C07, C08, C14, C16). One WHERE literal in twelve is of another type but prints like the column's value (= / != only; never equal). Non-trivial: an UPDATE/DELETE on a table that later goes through >=1 more leaf split, or >=2 switches between tables among the inserts, or >=7 tables (sys_pages split); distinct by case JSON.",
     "technique": "stateful property-based testing (rapid) against an in-memory reference model",
     "level_text": "Model-based random search over statement histories biased to cross the structural thresholds (9-cell leaves, catalog splits, multi-level trees in the thorough tier). Finds lost/duplicated/resurrected/leaked rows and catalog drift on the explored histories; it cannot show their absence in general.",
     "level_note": "Trusted: the reference model (harness/model) and the comparison code. The flush timer is replaced by generated explicit flushes (hook VerifNoTimer); concurrency is C13's business.",
@@ -58,7 +58,7 @@ PROPS["C03"] = {
             "EVERY write and fsync the victim issues on the log, and at each such point two crash images are taken (log as written so far; log cut at the last fsync); every image is "
             "recovered with the real InitStorage and must equal the model state before the victim plus the first r row operations for some r in 0..n (other tables untouched, catalog intact), "
             "then 1-3 follow-up multi-row inserts run on the recovered files and are compared with the model continued from that prefix. "
-            "One case in five starts with 7-11 tables (multi-page catalog). One case in six has a restart inside the history (burst of CREATE TABLEs, restart, root-moving INSERT); follow-up inserts go into every table. After the follow-up inserts the process ends (cleanly / by death, alternating) and starts a second time; the state must be the same. Non-trivial: a victim with >=3 row operations whose images recovered to at least two different prefixes r (e.g. r=0 before the log write and r=n after the write but before its fsync; proper prefixes 0<r<n are labelled separately); distinct by case JSON.",
+            "One case in five starts with 7-11 tables (multi-page catalog). One case in six has a restart inside the history (burst of CREATE TABLEs, restart, root-moving INSERT); follow-up inserts go into every table. After the follow-up inserts the process ends (cleanly / by death, alternating) and starts a second time; the state must be the same. Crash images are taken before every physical write to the log file (hook wal.fwrite) and every fsync. Non-trivial: a victim with >=3 row operations whose images recovered to at least two different prefixes r (e.g. r=0 before the log write and r=n after the write but before its fsync; proper prefixes 0<r<n are labelled separately); distinct by case JSON.",
     "technique": "fault injection at every log write/fsync call of generated victim statements (rapid + build-tag hook), prefix-state oracle from a reference model",
     "level_text": "All log-write crash points of each generated victim statement are enumerated (exhaustive per statement, both tail-cut variants) and recovered with the real code; histories and victims are random.",
     "level_note": "Crash = process death at a write-call boundary (the property's own granularity); a torn individual write() is not generated. Trusted: reference model with prefix semantics, hook placement (before each Write/Sync in wal.flush).",
@@ -150,7 +150,7 @@ PROPS["C08"] = {
             "(INT/BIGINT extremes, 2^53+1, empty strings, NUL/0xFF/invalid UTF-8 bytes, NULLs), rows built to encode to exactly 400 bytes (must be accepted) and 401 bytes (must be refused), wrong-kind values, INT beyond 32 bits; "
             "each statement as SQL text when the dialect can express it, else as direct statement values. After every statement SELECT * must equal the model bit-for-bit (refused statements: error and unchanged table); "
             "the comparison is repeated after flush + cache shrink to 6 pages + scan of another table (eviction, reload from disk), after a clean restart, (one case in three) after USE of another database and back, and (phase 2, unflushed) after crash + recovery. "
-            "Operations include single-row DELETEs; the case ends with one more clean restart after the crash + recovery. One INSERT in three names all columns in a permuted order. Pairs of UPDATEs whose texts differ only in white space inside the string literal. Non-trivial: a 400-byte boundary row with at least one reload, or a refused value placed in a column that is not the first; distinct by case JSON.",
+            "Operations include single-row DELETEs; the case ends with one more clean restart after the crash + recovery. One INSERT in three names all columns in a permuted order. Pairs of UPDATEs whose texts differ only in white space inside the string literal. One-statement UPDATEs over all rows. Non-trivial: a 400-byte boundary row with at least one reload, or a refused value placed in a column that is not the first; distinct by case JSON.",
     "technique": "property-based round-trip testing (rapid) across four observation points (memory, reloaded page, restart, crash recovery) against a reference model with its own size/validity rules",
     "level_text": "Random search biased to encoding boundaries; the 400/401 boundary is computed by the model's own size formula, not taken from the code. Search, not proof.",
     "level_note": "Trusted: model.EncodedSize / ValidateValue (written from the documented row format), exact Go-value comparison. Multi-row failing statements are C14's business and not generated here.",
@@ -188,7 +188,7 @@ PROPS["C17"] = {
             "timer ticks (VerifTickAll runs flushPages on every store that owns a flush timer right now, oldest or newest first - including stores a USE left behind), clean restarts and crash restarts. "
             "Oracle: a model database per name; every operation's outcome class, storage.ShowDB() = the created names, the selected database compared after every USE / tick / statement, every database selected in turn and compared at each restart and at the end, "
             "row ids stable and never reused per database, and finally one more insert per table of every database must succeed. "
-            "One case in four draws full-range values including rows of exactly 400 bytes. Database names include prefix-related ones (shop/shop2/sho, d/d1/d1x). Non-trivial: >=2 databases with data, >=2 switches, >=1 tick after a switch and >=1 restart; distinct by case JSON.",
+            "One case in four draws full-range values including rows of exactly 400 bytes. Database names include prefix-related ones (shop/shop2/sho, d/d1/d1x). CREATE DATABASE with a 65-255 character name (a refusal must leave nothing behind). Non-trivial: >=2 databases with data, >=2 switches, >=1 tick after a switch and >=1 restart; distinct by case JSON.",
     "technique": "stateful property-based testing (rapid) of the session layer against a per-database reference model, with the flush timers made explicit and deterministic by hooks",
     "level_text": "Random search over USE/CREATE DATABASE/restart interleavings with deterministic timer ticks. Search, not proof.",
     "level_note": "Trusted: the store registry hook (VerifTickAll does exactly what each live 100 ms timer does), lower-case database names (one file pair per lower-cased name).",
@@ -239,7 +239,7 @@ PROPS["C19"] = {
             "(repeats allowed), separator in {',', ';', tab, '|'}, 0-3 pre-existing rows, and a stream of 1-25 records built by class so that the expected outcome of each record is known by construction: valid (numbers in plain / zero-padded / signed / extreme forms, every accepted boolean spelling in any case, "
             "strings containing the separator, quotes, line feeds), \\N in a mapped field, unparsable or out-of-range value for the column type, short record, bare quote in an unquoted field, text after a closing quote, extra fields, oversize string. "
             "Oracle: exactly one ok/error event per record, in record order and of the expected kind; afterwards Fetch returns the pre-existing rows untouched followed by exactly the accepted records in input order, mapped columns holding the converted values, unmapped columns NULL. "
-            "Separators include non-ASCII characters; one import in ten writes the -dest-cols/-src-cols lists with blanks after the commas (refusal allowed, a different import not). After the in-session comparison the importing program exits the way main() does (nothing flushed or closed), start-up recovery runs and the table is compared again; half of the cases run with WAL fsync disabled. String fields include byte sequences that are not UTF-8. Non-trivial: a rejected record strictly between two accepted ones and at least one \\N; distinct by case JSON.",
+            "Separators include non-ASCII characters; one import in ten writes the -dest-cols/-src-cols lists with blanks after the commas (refusal allowed, a different import not). After the in-session comparison the importing program exits the way main() does (nothing flushed or closed), start-up recovery runs and the table is compared again; half of the cases run with WAL fsync disabled. String fields include byte sequences that are not UTF-8. Sign-only numbers; long runs (49-100) of malformed records inside long streams. Non-trivial: a rejected record strictly between two accepted ones and at least one \\N; distinct by case JSON.",
     "technique": "property-based testing (rapid) with record streams constructed by class against by-construction expectations (in-package, real storage)",
     "level_text": "Random search over schemas, mappings, separators and record streams. Search, not proof.",
     "level_note": "Trusted: the CSV rendering in the test (RFC 4180 quoting) and Go's encoding/csv for well-formed input. No carriage returns (the stdlib reader rewrites CRLF, which is not mkdb's doing).",
@@ -263,7 +263,7 @@ PROPS["C13"] = {
     "rule": "rapid-generated schedules: 6-14 statements (CREATE TABLE, INSERT, UPDATE, DELETE, SELECT) run through a Session with the REAL 100 ms flush timer in a binary built with -race; for up to 4 generated statements the verif hook parks the session goroutine for 120-350 ms (1-3 ticks) "
             "at the statement's log write (all its page changes done, log append pending) or, for statements that do not log (CREATE TABLE, SELECT), at a generated page lookup; generated idle gaps of 0-150 ms let ticks land before, inside and after statements. "
             "Oracles: (1) monitor: while a statement is parked no flush, page write or header write may happen on another goroutine; (2) every race-detector report with one side inside engine.EvaluateCreateTable/Insert/Update/Delete/Select and the other inside the flusher is a violation "
-            "(other reports, e.g. USE racing the timer, are counted as out of scope); (3) table contents equal the model afterwards. One schedule in eight is a bulk schedule: 520-1100 rows, then whole-table UPDATE/DELETE/SELECT statements held open at an early page lookup. Half of the SELECTs are chains of one or two joins (several table fetches inside one bracket). One step in ten is a statement on a table that does not exist (sent through the session). Non-trivial: a DDL/DML statement was parked and the flusher demonstrably waited (it flushed within 60 ms after the park ended); distinct by schedule JSON.",
+            "(other reports, e.g. USE racing the timer, are counted as out of scope); (3) table contents equal the model afterwards. One schedule in eight is a bulk schedule: 520-1100 rows, then whole-table UPDATE/DELETE/SELECT statements held open at an early page lookup. Half of the SELECTs are chains of one or two joins (several table fetches inside one bracket). One step in ten is a statement on a table that does not exist (sent through the session). One SELECT in six reads the catalog tables. Non-trivial: a DDL/DML statement was parked and the flusher demonstrably waited (it flushed within 60 ms after the park ended); distinct by schedule JSON.",
     "technique": "schedule-controlled testing: generated delay injection through build-tag hooks + happens-before race detection (-race) as a sanitizer, scoped to the property",
     "level_text": "The weakest check: a few dozen harness-owned schedules; happens-before detection does not depend on the observed timing, parking makes the overlapping accesses actually occur. Interleavings the parked schedules never bring together are missed; failures do not shrink.",
     "level_note": "Wall-clock time decides only WHICH schedules are exercised, never the verdict. Trusted: the hook placement (before log writes, inside flushPages under the lock, in setCache), Go's race detector.",
